@@ -9,6 +9,7 @@ import (
 	"fmt"
 	"io"
 	"sort"
+	"sync/atomic"
 
 	"fgverif/kern"
 	"fgverif/ref"
@@ -135,7 +136,12 @@ func (o *Outcome) violate(tr *Trace, oracle, detail string, feat map[string]stri
 }
 
 // fold merges a sub-run's log into the outcome.
+// ProgressTick counts completed (sub-)runs; the worker's hang guard watches
+// it, so that a long sweep is never mistaken for a hang.
+var ProgressTick int64
+
 func (o *Outcome) fold(log *kern.Log, nontrivial bool) {
+	atomic.AddInt64(&ProgressTick, 1)
 	o.Evals++
 	o.Events += log.Seq
 	o.LogHash = o.LogHash*0x100000001b3 ^ log.Hash
